@@ -534,6 +534,12 @@ class SqlImpl(TableImpl):
                 right_ast = verbs.Select(nd.right, reordered_cols)
                 right_table, right_query, right_sqa_expr = cls.compile_ast(right_ast, needed_cols)
 
+            # The row order of the operands of a union is not preserved, and an ORDER BY
+            # inside a compound SELECT is a syntax error on some dialects (SQLite). A
+            # LIMIT cannot be present here (this requires a subquery).
+            query.order_by = []
+            right_query.order_by = []
+
             # Build left and right select statements
             left_sel = cls.compile_query(table, query, sqa_expr)
             right_sel = cls.compile_query(right_table, right_query, right_sqa_expr)
